@@ -27,18 +27,19 @@ type secWritten struct {
 }
 
 type secDoc struct {
-	version   pdf.Version
-	user      string
-	owner     string
-	perm      pdf.Perm
-	ids       [][]byte // opt.ID (nil = not given)
-	hasMeta   bool
-	plainMeta bool
-	metaTitle string
-	human     bool
-	infoTitle string
-	nItems    int
-	boundary  []string // passwords differing from a 120..135 byte password around byte 127
+	version     pdf.Version
+	user        string
+	owner       string
+	perm        pdf.Perm
+	ids         [][]byte // opt.ID (nil = not given)
+	hasMeta     bool
+	plainMeta   bool
+	metaTitle   string
+	human       bool
+	infoTitle   string
+	nItems      int
+	boundary    []string // passwords differing from a 120..135 byte password around byte 127
+	skipRefused int      // Crypt-filter streams the Writer refused (file encrypted without crypt filters)
 
 	// results of writing
 	data      []byte
@@ -405,6 +406,10 @@ func (d *secDoc) doWrite(rec *recRand, r *Rand) (err error) {
 		switch r.Intn(8) {
 		case 5:
 			if err := cryptSkip(); err != nil {
+				if d.encV() < 4 {
+					d.skipRefused++ // no crypt filters in a /V 1 or 2 file: refusing is right
+					break
+				}
 				return err
 			}
 		case 6: // Put while a stream is open: written after the stream, with its own key
@@ -540,7 +545,10 @@ func (d *secDoc) doWrite(rec *recRand, r *Rand) (err error) {
 	}
 	if nSkip == 0 {
 		if err := cryptSkip(); err != nil {
-			return err
+			if d.encV() >= 4 {
+				return err
+			}
+			d.skipRefused++
 		}
 	}
 	if err := d.sweep(r, w, newRef); err != nil {
@@ -882,4 +890,10 @@ func (d *secDoc) sweep(r *Rand, w *pdf.Writer, newRef func() pdf.Reference) erro
 		}
 	}
 	return nil
+}
+
+// encV is the /V of the written encryption dictionary.
+func (d *secDoc) encV() int {
+	v, _ := d.encDict["V"].(pdf.Integer)
+	return int(v)
 }
